@@ -27,6 +27,7 @@ build() { # build <out> <pkg> [flags...]
 case "$ID" in
   C17)
     build "$BIN/midicat" ./cmd/midicat
+    PATH="$BIN:$PATH" build "$BIN/openprobe" ./cmd/openprobe
     PATH="$BIN:$PATH" build "$BIN/vcheckmc" ./cmd/vcheckmc -race
     export VERIF_HELPER_DIR="$BIN"
     PATH="$BIN:$PATH" exec "$BIN/vcheckmc" -property "$ID" -tier "$TIER" "$@"
